@@ -54,18 +54,19 @@ NA = {
 # claimed level; the rule list per property is in DESIGN.md §9)
 LATER = {
     "C02": "R2.10: a decisive `a < b ? -1 : 1` is reached only where a != b is established for the same operands.",
-    "C03": "R3.3: handle_minus decides with could_extract_minus, the predicate the validators use; R3.4: and_or<> probes the container it constructs from for complementary literals after the last insertion.",
+    "C03": "R3.3: handle_minus decides with could_extract_minus, the predicate the validators use; R3.4: and_or<> probes the container it constructs from for complementary literals after the last insertion; R3.2 also requires the split input to be non-numeric; R3.6: a function factory's unevaluated fall-back constructs the factory's own class.",
     "C05": "R5.5: no built-in % on a signed value taken from an Integer; R5.6: no operand test repeated verbatim inside one &&/|| chain.",
     "C06": "R6.7: every returning path of the binary add()/mul() has used both operands; R6.8: Integer and Rational overloads of the Complex operations are one formula; R6.9: div(a, 0) returns zoo only after excluding a == nan and a == 0.",
-    "C12": "the evaluators convert Integer/Rational leaves the same way; R12.6: complex-domain evaluators call the complex overload of domain-restricted functions.",
+    "C12": "the evaluators convert Integer/Rational leaves the same way; R12.6: complex-domain evaluators call the complex overload of domain-restricted functions; R12.7: fits-test and machine-word read agree on signedness.",
     "C13": "R13.5: the Symbol handler resolves cse replacement symbols before inputs; R13.6: tree_cse reserves the name of every symbol it visits; R13.7: inputs are matched by identity, never by name.",
-    "C16": "R16.5: negative numbers never have Atom precedence; R16.6: the printer's ordering comparator tests __cmp__ == -1 over a range-checked compare and never decides key identity by hash.",
+    "C16": "R16.5: negative numbers never have Atom precedence; R16.6: the printer's ordering comparator tests __cmp__ == -1 over a range-checked compare and never decides key identity by hash, and the compare() functions it relies on pass C02's antisymmetry rules.",
     "C17": "R17.4 also requires a tested end pointer for strtol results; R17.5: no Integer from a floating-point intermediate in the parser.",
     "C19": "R19.7: loaders reject an empty container only for classes that cannot be empty; R19.8: no loader recombines floating parts arithmetically.",
     "C20": "R20.7 also covers the loads() entry points (archive construction and header reads inside the translating try); R20.12: loaders reject an empty operand container for And/Or/Xor/Piecewise/Union/FiniteSet/Derivative.",
+    "C18": "R18.3: string positions from find*() are tested before use in the hand-written parser code; container members written through mutators count as parser state.",
     "C39": "R39.5: a stop visitor sets stop_ only after assigning its answer.",
-    "C42": "R42.5/R42.6 index and integer hand-over; R42.7 container wrappers apply the std operation of the same meaning; R42.8 no const input handle is read after an output handle was written; R42.9 enum-valued C integers arrive by cast; R42.10 nullary constructors return the object their name says; R42.11 objects created by *_new() are fully initialised.",
-    "C44": "R44.10 operands next to an infix operator in _print_pow are parenthesised and the top-level operator is the power operator; R44.11 no forward loop prepends its elements to an output sequence; R44.12 begin() of a sequence the function tests for emptiness is stepped only where emptiness is excluded; the XML escaper itself is complete.",
+    "C42": "R42.5/R42.6 index and integer hand-over; R42.7 container wrappers apply the std operation of the same meaning; R42.8 no const input handle is read after an output handle was written; R42.9 enum-valued C integers arrive by cast; R42.10 nullary constructors return the object their name says; R42.11 objects created by *_new() are fully initialised; R42.12 a call that receives an output handle by reference holds its own RCP of every input; R42.13 the C matrix functions size the result with the shape of the operation.",
+    "C44": "R44.10 operands next to an infix operator in _print_pow are parenthesised and the top-level operator is the power operator; R44.11 no forward loop prepends its elements to an output sequence; R44.12 begin() of a sequence the function tests for emptiness is stepped only where emptiness is excluded; the XML escaper itself is complete; R44.13 every Infty handler distinguishes the direction; R44.14 children are never streamed with the default string printer.",
 }
 
 PENDING_REASON = ("structural clause designed in DESIGN.md §2 but its checker "
